@@ -180,6 +180,8 @@ def check_children(ctx: Context, log: List[Dict[str, Any]], stack_obj: Any, varn
             return f"child {j}: description {d!r} does not name the registration method {rec['methods']}"
         if not d.replace("await ", "").startswith(varname + "."):
             return f"child {j}: description {d!r} does not start with the stack's name"
+        if k.varname != f"{varname}[{j}]":
+            return f"child {j}: varname {k.varname!r}, expected {varname}[{j}]"
         # recursive unfolding
         if rec["kind"] in ("GCM", "GCM_YF", "AGCM"):
             ins = k.inner_stack
@@ -196,6 +198,10 @@ def check_children(ctx: Context, log: List[Dict[str, Any]], stack_obj: Any, varn
             sub = list(k.children)
             if len(sub) != 2 or not isinstance(sub[0], Context) or not isinstance(sub[0].obj, PM) or "callback" not in (sub[1].description or ""):
                 return f"child {j}: nested exit stack not unfolded: {[getattr(s, 'description', None) for s in sub]}"
+            # the entries of the nested stack are labelled after IT: <stack>[j][i], "<stack>[j].callback(...)"
+            for i, s_ in enumerate(sub):
+                if s_.varname != f"{varname}[{j}][{i}]" or not (s_.description or "").replace("await ", "").startswith(f"{varname}[{j}]."):
+                    return f"child {j}: entry {i} of the nested stack is labelled {s_.varname!r} / {s_.description!r}, expected {varname}[{j}][{i}] / {varname}[{j}].<method>(...)"
         elif k.inner_stack is not None or list(k.children):
             return f"child {j}: plain registration has substructure"
     return None
